@@ -126,9 +126,6 @@ package graphql
 
 // ---- planned execution walk (C01, C04, C13, C20) ------------------------------------
 
-//@ func Schema.IsPossibleType
-//@   trusted
-//@   functional
 
 //@ func executePlannedSelection
 //@   assigns class:executionContext.Errors, class:executionContext.Context, class:FormattedError, class:M|*graphql.Object|*graphql.selectionPlan, class:graphql.selectionPlan, class:graphql.fieldPlan, class:M|string|int, class:M|string|bool, class:E|*graphql.fieldPlan, class:E|*ast.Field, class:M|string|interface, class:E|interface, class:graphql.fragmentGate, class:graphql.fragmentTrace, class:E|graphql.collectStep, class:M|string|*graphql.fragmentTrace, class:E|graphql.fragmentSpreadEdge, class:M|string|*graphql.fragmentGate, class:E|func, class:graphql.Plan.expanding, class:M|*ast.Field|bool
@@ -184,7 +181,17 @@ package graphql
 //@   at call dethunkMapDepthFirst: assert calls("f") == atloop(1, calls("f")) ==> arg0 == as(v, "map[string]interface{}")
 //@   at call dethunkListDepthFirst: assert calls("f") == atloop(1, calls("f")) ==> arg0 == as(v, "[]interface{}")
 
+// (verified, was trusted) listing possible types reads the tables and writes nothing: not the
+// implementation lists (sorted once, when they are built), not the schema. Union.Types below is the
+// remaining assumption: a union of the schema was defined when NewSchema collected its members.
 //@ func Schema.PossibleTypes
+//@   props C07 C12
+//@   nosafety
+//@   requires gq != nil
+//@   assigns nothing
+//@   ensures typeis(abstractType, "*graphql.Interface") && as(abstractType, "*graphql.Interface") != nil && has(gq.implementations, as(abstractType, "*graphql.Interface").PrivateName) ==> result == gq.implementations[as(abstractType, "*graphql.Interface").PrivateName]
+//@   ensures typeis(abstractType, "*graphql.Union") ==> calls("Types") == 1 && result == lastresult("Types")
+//@ func Union.Types
 //@   trusted
 //@   assigns nothing
 
@@ -757,14 +764,23 @@ package graphql
 //@   trusted
 //@   assigns nothing
 
-// A Schema value is copied freely (Params.Schema, ExecuteParams.Schema, *plan.schema); the lazily
-// filled possible-type table must start nil in every copy so that each request builds its own.
+// A Schema value is copied freely (Params.Schema, ExecuteParams.Schema, *plan.schema) and every copy
+// shares the possible-type table: it is complete when the schema is handed out (NewSchema, and again
+// after AppendType), and nothing that runs during a request writes it or the implementation lists.
 //@ func NewSchema
 //@   props C07
 //@   nosafety
 //@   opt split=4
 //@   orderfree[C12,C10]
-//@   ensures result0.possibleTypeMap == nil
+//@   ensures result1 == nil ==> result0.possibleTypeMap != nil
+//@   at return: assert result1 == nil ==> calls("buildPossibleTypeMap") == 1
+//@ func Schema.buildPossibleTypeMap
+//@   props C07 C11
+//@   nosafety
+//@   requires gq != nil
+//@   ensures gq.possibleTypeMap != nil && fresh(gq.possibleTypeMap)
+//@   loop 1 ensures typeis(ttype, "*graphql.Interface") || typeis(ttype, "*graphql.Union") ==> calls("PossibleTypes") == atloop(1, calls("PossibleTypes")) + 1
+//@   at call PossibleTypes: assert arg0 == gq && arg1 == ttype
 
 // ---- planning: one entry per response key, in document order; shared visited set (C01, C13, C19) ----
 
@@ -786,9 +802,15 @@ package graphql
 //@   assigns nothing
 //@   nopanic
 //@   ensures typeConditionAST == nil ==> result
+// (verified, was trusted) membership is read from the table built with the schema; nothing is written
 //@ func Schema.IsPossibleType
-//@   trusted
+//@   props C07 C04
+//@   functional
+//@   nosafety
+//@   requires gq != nil
+//@   opt invoke.Name=pure
 //@   assigns nothing
+//@   at call PossibleTypes: assert arg0 == gq && arg1 == abstractType
 
 //@ func Plan.collectInto
 //@   props C01 C13 C20
@@ -1306,9 +1328,10 @@ package graphql
 //@   nosafety
 //@   orderfree
 //@ func Schema.AddImplementation
-//@   props C12 C10 C11
+//@   props C12 C10 C11 C07
 //@   nosafety
-//@   orderfree
+//@   orderfree[C12,C10,C11]
+//@   at[C07,C11] return: assert calls("buildPossibleTypeMap") == 1
 
 // ---- queries force deferred values breadth first (C09: the result holds no thunk; C04) ----
 // As for the depth-first walk: a thunk is called once, and the value it produced (not the thunk) is
